@@ -138,6 +138,9 @@ def _small_c01(tier, seed, shard=(0, 1)):
     # every ordering of a 3-sector chain, head not lowest included; lengths that fill the last sector exactly
     for perm in itertools.permutations([10, 11, 12]):
         cases.append({"partitions": [{"volumes": [_vol("VOL", [_sample("S1", 2 * 4096 + 3956, 1, sectors=list(perm))])]}]})
+    # chains whose first and last sectors look like the ends of one unbroken run while the inner sectors are out of order
+    for chain in ([40, 42, 41, 43], [80, 84, 82, 81, 83, 85], [30, 32, 31, 33, 34]):
+        cases.append({"partitions": [{"volumes": [_vol("VOL", [_sample("S1", (len(chain) - 1) * 4096 + 3000, sum(chain), sectors=chain)])]}]})
     for perm in itertools.permutations([20, 7]):
         cases.append({"partitions": [{"volumes": [_vol("VOL", [_sample("S1", 8122, 2, sectors=list(perm))])]}]})
     for words in (1, 100, 4026, 4027, 8122):
